@@ -359,6 +359,7 @@ func (vc *FnVC) enterBlock(fr *frame, b *ssa.BasicBlock) *state {
 		vc.assume("true", fmt.Sprintf("(>= %s %s)", na, st.alloc))
 		hs.alloc = na
 	}
+	vc.boundPendingRefs(hs.alloc)
 	var regs []*ssa.Alloc
 	for a := range li.modRegs {
 		regs = append(regs, a)
@@ -375,7 +376,8 @@ func (vc *FnVC) enterBlock(fr *frame, b *ssa.BasicBlock) *state {
 	}
 	// loop frame: heap arrays havocked at the head agree with the loop-entry heap except at the listed objects
 	li.frameObjs = nil
-	if len(li.frames) > 0 && !li.modAll {
+	li.hasFrame = len(li.frames) > 0 && !li.modAll
+	if li.hasFrame {
 		for _, c := range li.frames {
 			for _, m := range c.Mods {
 				li.frameObjs = append(li.frameObjs, vc.evalInt(fr, st, vc.old, m, nil))
@@ -451,7 +453,7 @@ func (vc *FnVC) addEdge(fr *frame, from, to *ssa.BasicBlock, cond string, st *st
 		if len(li.decs) == 0 {
 			vc.note("loop %d of %s has no decreases clause: termination not proved", li.ord, fr.fn.Name())
 		}
-		if len(li.frameObjs) > 0 {
+		if li.hasFrame {
 			for _, h := range sortedKeys(li.modHeap) {
 				if h == "$alloc" || strings.HasPrefix(h, "G:") {
 					continue
